@@ -52,6 +52,10 @@ func (i *Index) Set(slot uint64, time int64) error {
 	if slot < i.start || slot > i.end {
 		return NewErrSlotOutOfRange(i.start, i.end, slot)
 	}
+	if slot-i.start >= uint64(len(i.values)) {
+		// the capacity does not cover the whole slot range
+		return NewErrSlotOutOfRange(i.start, i.end, slot)
+	}
 	i.values[slot-i.start] = time
 	return nil
 }
@@ -59,6 +63,10 @@ func (i *Index) Set(slot uint64, time int64) error {
 // Get gets the blocktime for the given slot.
 func (i *Index) Get(slot uint64) (int64, error) {
 	if slot < i.start || slot > i.end {
+		return 0, NewErrSlotOutOfRange(i.start, i.end, slot)
+	}
+	if slot-i.start >= uint64(len(i.values)) {
+		// the capacity does not cover the whole slot range
 		return 0, NewErrSlotOutOfRange(i.start, i.end, slot)
 	}
 	return i.values[slot-i.start], nil
@@ -178,6 +186,10 @@ func (i *Index) unmarshalBinary(data []byte) error {
 		return fmt.Errorf("failed to read capacity: %w", err)
 	}
 	i.capacity = slottools.Uint64FromLEBytes(capacityBuf)
+	if i.capacity > uint64(reader.Len())/4 {
+		// each value takes 4 bytes; do not allocate for more values than the data holds
+		return fmt.Errorf("capacity %d exceeds the %d bytes of values", i.capacity, reader.Len())
+	}
 
 	i.values = make([]int64, i.capacity)
 	for j := uint64(0); j < i.capacity; j++ {
